@@ -111,6 +111,7 @@ def main():
     nshards = 16
     jobs = [dict(seed="%d/%s/%d" % (common.seed(), PROP, s), runs=runs[s::nshards]) for s in range(nshards)]
     R = common.Run(PROP, "fault_enumeration", RULE)
+    boot.spread_pyflags(jobs)
     for job, res, err in shard.run_jobs("vf.checks.C18", "worker", jobs, timeout=3600, nproc=16, shims=("flatbuffers",)):
         if err:
             R.inconc("worker %s: %s" % (job["seed"], err))
@@ -137,7 +138,7 @@ def run_script(src, wd, backend, timeout=120):
     e = boot.child_env(env, shims=("flatbuffers",))
     if not backend:
         e["PYTHONPATH"] = ""
-    pr = subprocess.run([boot.PY, "prog.py"], cwd=wd, env=e, stdout=subprocess.PIPE, stderr=subprocess.PIPE, timeout=timeout)
+    pr = subprocess.run([boot.PY] + boot.pyflags() + ["prog.py"], cwd=wd, env=e, stdout=subprocess.PIPE, stderr=subprocess.PIPE, timeout=timeout)
     return pr.returncode, pr.stderr.decode(errors="replace"), pr.stdout.decode(errors="replace")
 
 
@@ -155,6 +156,9 @@ def audit_counts(wd):
 
 def worker(job):
     R = common.Run(PROP, "fault_enumeration", RULE)
+    import sys as _sys
+    if _sys.flags.optimize:
+        R.count("workers_under_python_O%s" % ("O" if _sys.flags.optimize > 1 else ""))
     home = os.getcwd()
     ref_cache = {}
     ctl_cache = {}
